@@ -46,7 +46,7 @@ Init0 ==
    inb |-> <<>>, inbId |-> <<>>, held |-> {}, owedAcks |-> <<>>, marks |-> {}, damaged |-> {}, diverged |-> FALSE,
    lastFail |-> FALSE, nstops |-> 0, closedEarly |-> FALSE, closeCalled |-> FALSE, altered |-> {}, sent0 |-> {},
    frame |-> FALSE, sentSeq |-> <<>>, retSeq |-> <<>>, bigPending |-> -1,
-   garbled |-> FALSE, ambig |-> {}, attemptOpen |-> FALSE, down |-> "no", downSure |-> FALSE, lwGot |-> <<>>, stalls |-> <<>>]
+   garbled |-> FALSE, relDone |-> {}, ambig |-> {}, attemptOpen |-> FALSE, down |-> "no", downSure |-> FALSE, lwGot |-> <<>>, stalls |-> <<>>]
 
 (* ---------------------------------------------------------------------- *)
 (* helpers on the outbound bookkeeping                                     *)
@@ -96,8 +96,16 @@ OnStore(m, e) ==
       LET t == m.owner[k] IN
       R([m EXCEPT !.msgs[t].relSaved = TRUE], If(~m.msgs[t].rec /\ ~m.garbled, "C13_NoForgedProgress"))
     ELSE R(m, {"C03_RelForUnknown"})
-  ELSE IF e.op = "Save" /\ e.kind = "MARK" THEN R([m EXCEPT !.marks = @ \cup {k - MarkFlag}], {})
-  ELSE IF e.op = "Delete" /\ k >= MarkFlag THEN R([m EXCEPT !.marks = @ \ {k - MarkFlag}], {})
+  ELSE IF e.op = "Save" /\ e.kind = "MARK" THEN
+    \* a marker is saved for a message that was returned and whose cycle is still open, and for nothing else
+    \* (a stale marker makes the next message with that identifier disappear)
+    LET id == k - MarkFlag
+        known == Has(m.inbId, id)
+        tg == IF known THEN m.inbId[id] ELSE 0
+    IN R([m EXCEPT !.marks = @ \cup {id}],
+         If(known /\ id \notin m.ambig /\ ~m.hostile /\ (id \in m.relDone \/ m.inb[tg].returned = 0), "C04_MarkerOnlyWhileOwed"))
+  \* the client handled the PUBREL of that identifier: the cycle is over until a message with it is returned again
+  ELSE IF e.op = "Delete" /\ k >= MarkFlag THEN R([m EXCEPT !.marks = @ \ {k - MarkFlag}, !.relDone = @ \cup {k - MarkFlag}], {})
   ELSE IF e.op = "Delete" /\ lvl > 0 /\ Has(m.owner, k) /\ e.found THEN
     LET t == m.owner[k] IN
     IF e.p = "env" THEN R([m EXCEPT !.msgs[t].deleted = TRUE], If(k \notin m.damaged, "C16_OnlyCorruptDropped"))
@@ -179,6 +187,8 @@ OnWritePacket(acc, pk) ==
           \cup If(~known, "C07_AckedOnlyIfReceived")
           \cup If(sure /\ (m.inb[tg].qos = 1) # (pk.t = "PUBACK"), "C07_AckCarriesId")
           \cup If(sure /\ m.inb[tg].returned = 0, "C07_AckedOnlyIfReturned")
+          \* the PUBREC goes out only with the ownership marker saved: that is what carries the cycle over a restart
+          \cup If(sure /\ pk.t = "PUBREC" /\ pk.id \notin m.marks /\ m.damaged = {} /\ ~m.hostile, "C04_MarkerSavedBeforeRec")
     IN [acc EXCEPT !.m = [m EXCEPT !.conns[c] = cn1,
                                   !.inb = IF known THEN [@ EXCEPT ![tg].acks = @ + 1, ![tg].owed = FALSE] ELSE @],
                    !.fails = @ \cup fails]
@@ -451,7 +461,9 @@ OnRet(m, e) ==
         \* suppression is owed from the moment the marker Save succeeded (DESIGN appendix C)
         \* and, within one process, from the moment the application took ownership (no stop in between)
         again == got /\ id # 0 /\ m.inb[id].qos = 2 /\ m.inb[id].returned >= 1 /\ ~m.inb[id].cycleEnded
-                 /\ (m.inb[id].id \in m.marks \/ (m.inb[id].owned /\ m.inb[id].ownedGen = m.gen))
+                 /\ (m.inb[id].id \in m.marks \/ (m.inb[id].owned /\ m.inb[id].ownedGen = m.gen)
+                     \* ... and once the client has written the PUBREC of this cycle (it does so only with the marker saved)
+                     \/ (m.inb[id].acks > 0 /\ m.damaged = {} /\ ~m.faulty))
         m1 == [m0 EXCEPT !.retSeq = IF m.frame /\ e.got THEN Append(@, <<e.len, e.sum>>) ELSE @,
                          !.bigPending = IF m.frame /\ "big" \in cls THEN e.bigsize ELSE @,
                          !.rsClosed = @ \/ isClosed,
@@ -461,7 +473,8 @@ OnRet(m, e) ==
                          !.attemptOpen = IF cls # {} /\ "big" \notin cls THEN FALSE ELSE @,
                          !.downSure = IF cls # {} /\ ~isClosed /\ "big" \notin cls THEN m.attemptOpen ELSE @,
                          !.held = IF got /\ id # 0 THEN {id} ELSE {},
-                         !.inb = IF got /\ id # 0 THEN [@ EXCEPT ![id].returned = @ + 1] ELSE @]
+                         !.inb = IF got /\ id # 0 THEN [@ EXCEPT ![id].returned = @ + 1] ELSE @,
+                         !.relDone = IF got /\ id # 0 THEN @ \ {m.inb[id].id} ELSE @]
         \* the owed acknowledgement goes out at the start of the next invocation, before anything else is
         \* read: the same message cannot come back unacknowledged once ownership was taken (same process)
         unacked == got /\ id # 0 /\ m.inb[id].qos > 0 /\ m.inb[id].returned >= 1 /\ m.inb[id].owned
